@@ -5,7 +5,7 @@
    [Panic] is any Rust panic (slice bounds, expect, debug assertion), [OutOfFuel] a non-terminating loop. *)
 From GixV.Base Require Import Bytes BytesFacts Outcome.
 From Coq Require Import Lia.
-From GixV.C29 Require Import Tables Model Proofs ProofsCodec ProofsReader ProofsSideband ProofsLines.
+From GixV.C29 Require Import Tables Model Proofs ProofsCodec ProofsReader ProofsSideband ProofsLines ProofsDemux.
 Local Open Scope N_scope.
 
 (* ---- length prefixes --------------------------------------------------------------------------- *)
@@ -176,6 +176,52 @@ Example empty_progress_is_delivered :
                             pos := 0; cap := 0 |} [8; 8]
              = Ok ([inl (bs "k"); inl []], sb) /\ log (hnd sb) = [(false, [])].
 Proof. eexists. split; vm_compute; reflexivity. Qed.
+
+(* ---- side-band demultiplexing delivers the right content ------------------------------------------ *)
+
+(* A sender writes any list of side-band lines (band 1 data, band 2 progress, band 3 error; each an
+   accepted line, payloads possibly empty) and then a configured delimiter, followed by anything; the
+   bytes arrive in ANY chunking.  With a progress handler that always continues, the BufRead use of
+   WithSidebands (fill_buf, take the slice, consume it, until the empty slice = EOF) delivers exactly the
+   non-empty band-1 payloads in order, the handler has been called with exactly the band 2/3 texts
+   (is_error flag, one trailing newline removed) in order, iteration stopped at the delimiter and the
+   underlying reader is left at the bytes after it.  [n], [fuel] only need to exceed the number of lines. *)
+Theorem sideband_demux_content : forall ds f dl rest, valid dl -> find_line ds dl = Some dl ->
+  forall n items it h fuel pos0 cap0, (length items < n)%nat -> (length items < fuel)%nat ->
+  ready it ds f -> good_h h -> cap0 <= pos0 ->
+  Forall (fun i => passes ds f (item_line i)) items -> concat (rd it) = stream_of items dl rest ->
+  exists sb', drain n fuel {| parent := it; hnd := h; pos := pos0; cap := cap0 |} = Ok (data_of items, None, sb') /\
+    log (hnd sb') = rev (progress_of items) ++ log h /\
+    stopped_at (parent sb') = Some dl /\ concat (rd (parent sb')) = rest.
+Proof. exact L_demux_content. Qed.
+
+(* Read::read is a thin wrapper over that interface: it returns a prefix (at most the caller's buffer
+   size) of the slice fill_buf exposes and consumes exactly the bytes returned *)
+Theorem read_is_fill_buf_prefix : forall fuel sb size,
+  sb_read fuel sb size =
+  (r <- fill_buf fuel sb ;;
+   match r with
+   | (inr e, sb') => Ok (inr e, sb')
+   | (inl rem, sb') =>
+       Ok (inl (firstn (N.to_nat (N.min (len rem) size)) rem), consume sb' (N.min (len rem) size))
+   end)%outcome.
+Proof. exact L_read_is_fill_buf_prefix. Qed.
+
+(* the hypotheses are satisfiable, and the statement computes what one expects *)
+Example demux_example :
+  let items := [IProg false (bs "50%" ++ [x0a]); IData (bs "PA"); IData []; IProg true (bs "oops"); IData (bs "CK")] in
+  let it := iter_new [bs "00"; bs "09" ++ [x02] ++ bs "50%" ++ [x0a] ++ bs "0007" ++ [x01] ++ bs "PA0005" ++ [x01];
+                      bs "0009" ++ [x03] ++ bs "oops0007" ++ [x01] ++ bs "CK0000tail"] [Flush] in
+  ready it [Flush] false /\ Forall (fun i => passes [Flush] false (item_line i)) items /\
+  concat (rd it) = stream_of items Flush (bs "tail") /\
+  data_of items = [bs "PA"; bs "CK"] /\ progress_of items = [(false, bs "50%"); (true, bs "oops")].
+Proof.
+  cbv zeta. split; [|split; [|split; [reflexivity | split; reflexivity]]].
+  - repeat split; try reflexivity. repeat (apply Forall_cons; [discriminate|]). apply Forall_nil.
+  - assert (P : forall c, 1 <= len c <= 65516 -> passes [Flush] false (Data c)).
+    { intros c Hc. split; [exact Hc | split; reflexivity]. }
+    repeat (apply Forall_cons; [apply P; cbv; split; discriminate|]). apply Forall_nil.
+Qed.
 
 (* ---- non-vacuity ------------------------------------------------------------------------------- *)
 
